@@ -16,6 +16,7 @@ PROPS["C05"] = {
         "tests": {
             "TestC05Arith": T(40000, 4000000),
             "TestC05Decode": T(40000, 4000000),
+            "FuzzC05Decode": FUZZ(60, configs=["default"]),
             "TestC05Wide": T(30000, 3000000),
             "TestC05Slices": T(6000, 400000),
             "TestC05Unpacked": T(20000, 2000000),
